@@ -908,6 +908,9 @@ void Validator::ValidatorImpl::handleErrorsFromImports(size_t initialErrorCount,
                     size_t endMarker = description.find(dataBoundaryMarker, startMarker + 1);
                     std::string importInfo = description.substr(startMarker + 1, endMarker - startMarker - 1);
                     auto ss = split(importInfo);
+                    // Note: names, references and URLs may themselves contain
+                    //       the separator or the boundary marker.
+                    ss.resize(3);
                     os << "  -> " << type << " '" << ss[0] << "' importing '" << ss[1] << "' from '" << ss[2] << "'";
                     originalDescriptionStart = endMarker + 1;
                     pos = description.find(notOriginMarker, pos + 1);
